@@ -5,7 +5,7 @@ package rules
 //
 // Rules (DESIGN.md §3 C06) and where they live:
 //
-//	R-C06-1  c06.go         Validator.Handle decision table (E1): admit only if every validator field is nil
+//	R-C06-1  c06.go, c06_table.go  Validator.Handle decision table (E1): admit only if every validator field is nil
 //	                        or its check returned nil (direct call or a proven-faithful wrapper); reject only after
 //	                        a validator error, with a declared result, an output response and 400 (headers) / 401
 //	R-C06-2  c06_jwt.go     every jwt.Parse* key function returns the key only with Alg() == configured algorithm
@@ -110,6 +110,19 @@ package rules
 // V1 expiry as bool helper taking the age, V2 checks through method values in Handle, V3 named result +
 // bare returns in JWTValidator.Validate, V4 GetAll through a method value, V5 Handle split into a
 // first-failure helper + reject closure returning the result; mutated versions of r2/r4 are still caught.
+//
+// Robustness pass, second set (/verif/preserving/C06/r5..r8, all silent now): what flows into a digest is
+// the value closure of the result (arrays of parts written in a loop, strings.Join, locals) instead of
+// "writes into one buffer"; role predicates and the wire-form rule follow helpers split in two; the key
+// function may be a method value delegating to a helper whose parameters carry token / algorithm / secret;
+// a function calling the jwt parser may return several values; a table-driven Handle (slice of entries
+// with check function, status, tag built at reload) is decided by c06_table.go in two halves (loop, table).
+// Mutants of those shapes tried: T1 jwt entry dropped, T2 entry status 403, T3 `continue` after a failed
+// entry, T4 `return ""` inside the loop, T5 reject ignores the entry's status, T6 table built before
+// basicAuth is assigned, T7 unfaithful wrapper in an entry, T8 entry guarded by an extra condition → all
+// R-C06-1 violations; T9 loop over validations[1:] → undecided. Variants (silent): value-range loop with
+// keyed literals, classic for loop through a local, builder inlined into reload (reset + appends),
+// alg test as a predicate method, body digest in a helper; mutated r6/r7 are still caught.
 //
 // Not caught (outside the decided clauses, see NotDecided): N1 verify rebuilds the canonical headers from
 // empty values; N2 getCanonicalQuery keeps only the first value of every parameter (both are caught by the
@@ -1042,6 +1055,27 @@ func c06Handle(c *core.Ctx) {
 
 	k := c06FindChecks(c, f, fields, 0, map[types.Object]*c06Wrapper{})
 	defs, sites := k.defs, k.sites
+	// a table-driven Handle dispatches the checks through a slice of entries: decided separately
+	if tbl, twhy := c06FindTable(c, f, vt); tbl != nil || twhy != "" {
+		direct := 0
+		for _, s := range sites {
+			if !k.callees[c06FuncObj(s.in)] {
+				direct++
+			}
+		}
+		switch {
+		case tbl != nil && direct == 0:
+			c06HandleTable(c, rule, cons, f, fields, results, tbl)
+			return
+		case direct < len(fields):
+			why := twhy
+			if why == "" {
+				why = "some validators are called directly and others through a table of function values"
+			}
+			c.Undecide(rule, cons+"|table of validations", pos(c, f.Body), why)
+			return
+		}
+	}
 	failed, passed, unset := k.failed, k.passed, k.unset
 	// helper summaries (closures bound to locals, same-package functions and methods)
 	summaries := map[types.Object]*c06RespSummary{}
@@ -1248,14 +1282,7 @@ func c06Handle(c *core.Ctx) {
 		sort.Strings(out)
 		return out
 	}
-	expectStatus := func(fld *types.Var) string {
-		if p, ok := fld.Type().Underlying().(*types.Pointer); ok {
-			if n, ok := p.Elem().(*types.Named); ok && n.Obj().Pkg() != nil && n.Obj().Pkg().Path() == Mod+c06hh {
-				return "400"
-			}
-		}
-		return "401"
-	}
+	expectStatus := c06ExpectStatus
 
 	type verdict struct {
 		bad *flow.Exit
